@@ -41,6 +41,9 @@ def gen_scenario(W, o):
             q["resp_size"] = max(0, W.choice(sizes, p0=0.3))
             q["resp_chunks"] = 1 + W.draw(3)
             q["app_sleep"] = W.choice([0, 0.0001, 0.01], p0=0.6)
+            # where the application pauses: before its first chunk, before its last one, or after the last
+            # one (output of earlier chunks is then pending while the worker is asleep)
+            q["sleep_at"] = W.draw(3)
             q["gen"] = W.chance(0.3)
             q["write"] = W.chance(o.get("p_write", 0.1))
             if kind:
@@ -56,6 +59,11 @@ def gen_scenario(W, o):
         conns.append({"reqs": reqs, "cuts": cuts, "seg_delay": W.choice([0.0, 0.0005, 0.02]),
                       "reader": W.weighted(o.get("reader_weights", [6, 2])),
                       "start": W.choice([0.0, 0.001])})
+        if o.get("p_halfclose"):
+            # the client shuts down its sending side after its last request and keeps reading: with
+            # channel_request_lookahead 0 the server meets the EOF only after everything was answered and
+            # sent, so nothing may be lost (with a lookahead the EOF legitimately counts as a disconnect)
+            conns[-1]["halfclose"] = W.chance(o["p_halfclose"]) and sc["lookahead"] == 0
     sc["conns"] = conns
     sc["sched"], sc["trace"] = common.draw_sched(W, walk_p=o.get("walk_p", 0.6))
     return sc
@@ -96,7 +104,9 @@ def build(tapes, sc, infinite_poll=False, horizon=60.0, stop_at_idle=True, extra
                 kind = "gen"
             script = {"chunks": chunks, "cl": len(body), "kind": kind}
             if q["app_sleep"]:
-                script["sleeps"] = {0: q["app_sleep"]}
+                at = q.get("sleep_at", 0)
+                where = 0 if at == 0 else ("end" if (at == 2 or n < 2) else n - 1)
+                script["sleeps"] = {where: q["app_sleep"]}
             path = "/c%d/r%d" % (cid, r)
             hdrs = [("Host", "sim")]
             method = "GET"
@@ -141,6 +151,8 @@ def build(tapes, sc, infinite_poll=False, horizon=60.0, stop_at_idle=True, extra
             if i and c["seg_delay"]:
                 steps.append(("sleep", c["seg_delay"]))
             steps.append(("send", s))
+        if c.get("halfclose"):
+            steps.append(("fin",))
         sim.add_client(steps, cid=cid, start=c["start"])
     ctx = Ctx()
     ctx.sim, ctx.app, ctx.expected, ctx.streams, ctx.sc, ctx.k = sim, app, expected, streams, sc, sim.k
